@@ -276,7 +276,7 @@ def run_varint(case):
                 elif got == v and s.read() == MARK:
                     res.ok("canonical==ref" if canon else "noncanonical read as layout value", nontrivial=("nc", prefix, v), sample={"raw": raw.hex(), "value": str(v)} if not canon else None)
                 else:
-                    res.violation(f"C19/varint/read-prefix{prefix:#x}/{vclass(v)}", vc, show(got), v, "read_varint returns a wrong value for a wide encoding")
+                    res.violation(f"C19/varint/read-prefix{prefix:#x}", vc, show(got), v, "read_varint returns a wrong value for a wide encoding")
                 # truncated encodings are outside the statement: counted only
                 for cut in range(1, len(raw)):
                     res.skip("truncated CompactSize (statement does not cover short reads of integers)")
@@ -349,13 +349,13 @@ class ChunkRaw(io.RawIOBase):
 
 
 def region(a, b, plen_hint=None):
-    """which envelope field holds the first difference between two serialisations"""
+    """which envelope field explains the difference between two serialisations (payload before its checksum)"""
     if rej(a) or rej(b) or not isinstance(a, (bytes, bytearray)) or not isinstance(b, (bytes, bytearray)):
         return "raised"
-    for i, (x, y) in enumerate(zip(a, b)):
-        if x != y:
-            return "magic" if i < 4 else "command" if i < 16 else "length" if i < 20 else "checksum" if i < 24 else "payload"
-    return "size"
+    for name, lo, hi in (("magic", 0, 4), ("command", 4, 16), ("length", 16, 20), ("payload", 24, None), ("checksum", 20, 24)):
+        if a[lo:hi] != b[lo:hi]:
+            return name
+    return "none"
 
 
 def env_fields(e):
@@ -386,7 +386,9 @@ def run_envelope(case):
 
     def check_parsed(e, what):
         if rej(e):
-            res.violation(f"C19/envelope/{what}-rejected/{tag}", vc, repr(e), "parsed", "a well-formed envelope is rejected")
+            simplest = attempt(NetworkEnvelope.parse, io.BytesIO(R.envelope(net, b"verack", b"")), network=net)
+            cls = net if rej(simplest) else tag
+            res.violation(f"C19/envelope/{what}-rejected/{cls}", vc, repr(e), "parsed", "a well-formed envelope is rejected")
             return False
         f = attempt(env_fields, e)
         want = {"command": cmd, "payload": payload, "magic": R.MAGIC[net]}
@@ -750,29 +752,59 @@ def swap16(p):
     return ((p & 0xFF) << 8) | (p >> 8)
 
 
-def classify_version(res, vc, ser, f, devs, nontrivial):
+def ver_status(ser, f):
+    """'ok' | 'ports' (only the byte order of the two port fields differs) | 'raised' | 'size' | first differing field"""
     ref = R.version_msg(f)
     assert R.parse_version_msg(ref) == f
     if ser == ref:
-        res.ok("version serialize==ref", nontrivial=nontrivial, sample={"devs": devs} if len(devs) == 1 else None)
-        return
+        return "ok", ref
     swapped = R.version_msg(dict(f, recv_port=swap16(f["recv_port"]), send_port=swap16(f["send_port"])))
     if ser == swapped:
+        return "ports", ref
+    if rej(ser) or not isinstance(ser, (bytes, bytearray)):
+        return "raised", ref
+    where = "size"
+    for cand in (ref, swapped):
+        for n, lo, hi in ver_segments(f):
+            if ser[lo:hi] != cand[lo:hi]:
+                where = n
+                break
+        if where not in ("recv_port", "send_port"):
+            break
+    return where, ref
+
+
+def ver_build(net, f):
+    m = attempt(net.VersionMessage, **{KW[k]: f[k] for k in VER_FIELDS})
+    return attempt(m.serialize) if not rej(m) else m
+
+
+def ver_minimal_devs(net, case, status):
+    """smallest sub-deviation of the case (explicit construction) that fails the same way: names the root cause, not the case"""
+    base = ver_base()
+    keys = [k for k in VER_FIELDS if case["f"][k] != base[k]]
+    special = "clock" in case or case.get("default_ports")
+    for size in range(0, len(keys) + (1 if special else 0)):
+        for sub in itertools.combinations(keys, size):
+            f = ver_concrete({"f": dict(base, **{k: case["f"][k] for k in sub}), "seed": case.get("seed", 0)})
+            if ver_status(ver_build(net, f), f)[0] == status:
+                return [f"{k}={case['f'][k]}" for k in sub] or ["base"]
+    return case["devs"] or ["base"]
+
+
+def classify_version(res, vc, ser, f, devs, nontrivial, net=None, case=None):
+    status, ref = ver_status(ser, f)
+    if status == "ok":
+        res.ok("version serialize==ref", nontrivial=nontrivial, sample={"devs": devs} if len(devs) == 1 else None)
+        return
+    if status == "ports":
         res.violation(
             "C19/version/port-byte-order", vc, show(ser, 120), show(ref, 120),
             "VersionMessage bytes differ from the protocol layout only by the byte order of the two port fields (little-endian written, big-endian specified)",
         )  # fmt: skip
         return
-    where = "raised" if rej(ser) else "size"
-    if not rej(ser):
-        for cand in (ref, swapped):
-            for n, lo, hi in ver_segments(f):
-                if ser[lo:hi] != cand[lo:hi]:
-                    where = n
-                    break
-            if where not in ("recv_port", "send_port"):
-                break
-    res.violation(f"C19/version/{where}/{'+'.join(devs) or 'base'}", vc, show(ser, 120), show(ref, 120), f"VersionMessage.serialize() differs from the protocol layout in field {where}")
+    mind = ver_minimal_devs(net, case, status) if case is not None else (devs or ["base"])
+    res.violation(f"C19/version/{status}/{'+'.join(mind)}", vc, show(ser, 120), show(ref, 120), f"VersionMessage.serialize() differs from the protocol layout ({status}); smallest deviation from the base message that shows it: {mind}")
 
 
 def run_version(case):
@@ -813,7 +845,7 @@ def run_version(case):
             return res
         f["timestamp"] = int(case["clock"])
         f["nonce"] = R.le(drawn, 8)
-        classify_version(res, vc, ser, f, devs, ("default", case["clock"], case["pick"]))
+        classify_version(res, vc, ser, f, devs, ("default", case["clock"], case["pick"]), net, case)
         return res
     if case.get("default_ports"):
         f["recv_port"] = f["send_port"] = 8333
@@ -822,7 +854,7 @@ def run_version(case):
         kw = {KW[k]: f[k] for k in VER_FIELDS}
     m = attempt(net.VersionMessage, **kw)
     ser = attempt(m.serialize) if not rej(m) else m
-    classify_version(res, vc, ser, f, devs, tuple(devs) if devs else None)
+    classify_version(res, vc, ser, f, devs, tuple(devs) if devs else None, net, case)
     if not devs and getattr(net.VersionMessage, "command", None) != b"version":
         res.violation("C19/version/command", vc, show(getattr(net.VersionMessage, "command", None)), "version", "wrong command name")
     return res
@@ -849,10 +881,10 @@ def gen_msgser(tier, seed):
     for v in [0, 1, 70015, 2**31 - 1, 2**31, 2**32 - 1]:
         for n in [0, 1, 2, 252, 253, 254, 65535, 65536, 2**32 - 1, 2**32, 2**64 - 1]:
             cases.append({"m": "getheaders", "v": v, "n": str(n), "seed": seed})
-    counts = COUNTS + [50000, 65535, 65536] + ([1 << 20] if tier == "thorough" else [])
+    counts = COUNTS + [65535, 65536] + ([50000, 200000] if tier == "thorough" else [])
     for n in counts:
         for shift in range(len(INV_TYPES) if n <= 254 else 2 if n <= 2000 or tier == "thorough" else 1):
-            cases.append({"m": "getdata", "n": n, "shift": shift, "seed": seed})
+            cases.append({"m": "getdata", "n": n, "shift": shift, "seed": seed, "heavy": n >= 50000})
     for m in ("getcfilters", "getcfheaders"):
         for ft in FTYPES:
             cases.append({"m": m, "ft": ft, "seed": seed})
@@ -888,7 +920,7 @@ def run_msgser(case):
                 kw = {} if end is None else {"end_block": end}
                 msg = attempt(net.GetHeadersMessage, version=v, num_hashes=n, start_block=start, **kw)
                 got = attempt(msg.serialize) if not rej(msg) else msg
-                cls = f"version={v:#x}" if rej(got) or got[:4] != want[:4] else f"count={vclass(n)}" if got[: len(want) - 64] != want[: len(want) - 64] else "hashes"
+                cls = f"raised/count={vclass(n)}" if rej(got) else "version" if got[:4] != want[:4] else f"count={vclass(n)}" if got[: len(want) - 64] != want[: len(want) - 64] else "hashes"
                 cmp_ser(res, vc, f"C19/getheaders/{cls}", got, want, (m, v, n, si, ei), "GetHeadersMessage.serialize() differs from version|count|locator|stop layout")
         return res
     if m == "getdata":
@@ -899,7 +931,14 @@ def run_msgser(case):
         msg = net.GetDataMessage()
         r = attempt(lambda: [msg.add_data(t, h) for t, h in items])
         got = attempt(msg.serialize) if not rej(r) else r
-        cmp_ser(res, vc, f"C19/getdata/count={vclass(n)}", got, want, (m, n, shift), "GetDataMessage.serialize() differs from count|(type,hash)* layout")
+        fp = f"C19/getdata/count={vclass(n)}"
+        if got != want and n > 1:
+            for t, h in items[: len(INV_TYPES)]:
+                one = net.GetDataMessage()
+                if attempt(lambda: (one.add_data(t, h), one.serialize())[1]) != R.inv_msg([(t, h)]):
+                    fp = f"C19/getdata/item/type={t:#x}"
+                    break
+        cmp_ser(res, vc, fp, got, want, (m, n, shift), "GetDataMessage.serialize() differs from count|(type,hash)* layout")
         return res
     if m in ("getcfilters", "getcfheaders"):
         cls = cf.GetCFiltersMessage if m == "getcfilters" else cf.GetCFHeadersMessage
@@ -912,7 +951,7 @@ def run_msgser(case):
                 want = R.getcfilters_msg(0 if ft is None else ft, sh, stop)
                 msg = attempt(cls, **kw)
                 got = attempt(msg.serialize) if not rej(msg) else msg
-                where = "raised" if rej(got) else "filter_type" if got[:1] != want[:1] else f"start_height={sh:#x}" if got[1:5] != want[1:5] else "stop_hash"
+                where = "raised" if rej(got) else "filter_type" if got[:1] != want[:1] else f"start_height/bytes{(sh.bit_length() + 7) // 8}" if got[1:5] != want[1:5] else "stop_hash"
                 cmp_ser(res, vc, f"C19/{m}/{where}", got, want, (m, ft, sh, hi), f"{cls.__name__}.serialize() differs from type|start height|stop hash layout")
         return res
     if m == "getcfcheckpt":
@@ -969,7 +1008,7 @@ def gen_msgparse(tier, seed):
     for i in range(0, 300, 20):
         cases.append({"m": "cfilter", "lens": lens[i : i + 20], "seed": seed})
     for ln in lens[300:]:
-        cases.append({"m": "cfilter", "lens": [ln], "seed": seed})
+        cases.append({"m": "cfilter", "lens": [ln], "seed": seed, "heavy": ln >= 16384})
     cases.append({"m": "cfilter-real", "seed": seed})
     counts = COUNTS + ([65535, 65536] if tier == "thorough" else [])
     for n in counts:
@@ -1014,7 +1053,12 @@ def run_msgparse(case):
         msg, s = parse_like_wait_for(net.HeadersMessage, raw + MARK)
         got = attempt(lambda: [block_fields(b) for b in msg.headers]) if not rej(msg) else msg
         if got != hdrs or s.read() != MARK:
-            res.violation(f"C19/headers/parse/count={vclass(n)}", vc, show(got), f"{n} headers", "HeadersMessage.parse does not return the encoded headers / stream position wrong")
+            fp = f"C19/headers/parse/count={vclass(n)}"
+            if n > 1:  # entry-level root cause when a one-header message is already mis-parsed
+                one, _ = parse_like_wait_for(net.HeadersMessage, R.headers_msg(hdrs[:1]))
+                if rej(one) or attempt(lambda: [block_fields(b) for b in one.headers]) != hdrs[:1]:
+                    fp = "C19/headers/parse/entry"
+            res.violation(fp, vc, show(got), f"{n} headers", "HeadersMessage.parse does not return the encoded headers / stream position wrong")
         else:
             back = attempt(lambda: [b.serialize() for b in msg.headers])
             if back != [R.header(h) for h in hdrs]:
@@ -1423,7 +1467,7 @@ RULES = {
     "length 0,1,15,252..256,65535,65536; thorough: + every 3-field deviation over reduced alphabets), default ports, default timestamp/nonce "
     "with time.time and randint replaced by enumerated values; oracle = protocol layout (ports big-endian), self-tested on a captured mainnet "
     "version message. Non-trivial = deviates from the base",
-    "msgser": "getheaders version{6} x count{11 CompactSize boundaries} x start{4} x stop{None+4}; getdata counts {0,1,2,3,252,253,254,2000,50000,65535,65536} "
+    "msgser": "getheaders version{6} x count{11 CompactSize boundaries} x start{4} x stop{None+4}; getdata counts {0,1,2,3,252,253,254,2000,65535,65536} (thorough + 50000, 200000) "
     "x type rotations over 8 inventory types; getcfilters/getcfheaders type{5+default} x height{11} x stop{4}; getcfcheckpt; verack/ping/pong/"
     "generic; command names of all 13 classes. Non-trivial = each distinct field tuple",
     "msgparse": "cls.parse(stream) exactly as SimpleNode.wait_for calls it, on reference-built payloads: headers counts {0,1,2,3,252,253,254,2000} (+ non-zero "
@@ -1437,14 +1481,32 @@ RULES = {
 }
 
 
+def _spread(gen, chunk):
+    """put every case flagged heavy at the start of a chunk of its own so that they run concurrently"""
+
+    def g(tier, seed):
+        cases = gen(tier, seed)
+        heavy = [c for c in cases if c.get("heavy")]
+        light = [c for c in cases if not c.get("heavy")]
+        out = []
+        for h in heavy:
+            out.append(h)
+            out += light[: chunk - 1]
+            light = light[chunk - 1 :]
+        return out + light
+
+    return g
+
+
 def engines(tier, seed):
     g1, r1 = _merged([("ints", gen_ints, run_ints), ("varint", gen_varint, run_varint)])
-    # heavy parts first so that they land in different chunks
     g3, r3 = _merged([("msgparse", gen_msgparse, run_msgparse), ("msgser", gen_msgser, run_msgser), ("header", gen_header, run_header), ("version", gen_version, run_version)])
+    q = tier == "quick"
+    # quick: the light engines need < 1 s of CPU; a few big chunks keep the number of spawned workers (the dominant cost) small
     return [
-        Engine("prims", g1, r1, kind="E1", chunk=1, rule="[ints] " + RULES["ints"] + " [varint] " + RULES["varint"]),
-        Engine("envelope", gen_envelope, run_envelope, kind="E1", rule=RULES["envelope"]),
-        Engine("corrupt", gen_corrupt, run_corrupt, kind="E1", rule=RULES["corrupt"]),
-        Engine("messages", g3, r3, kind="E1", chunk=6, rule=" ".join(f"[{k}] " + RULES[k] for k in ("header", "version", "msgser", "msgparse"))),
-        Engine("node", gen_node, run_node, kind="E2", rule=RULES["node"]),
+        Engine("prims", g1, r1, kind="E1", chunk=20 if q else 1, rule="[ints] " + RULES["ints"] + " [varint] " + RULES["varint"]),
+        Engine("envelope", gen_envelope, run_envelope, kind="E1", chunk=460 if q else None, rule=RULES["envelope"]),
+        Engine("corrupt", gen_corrupt, run_corrupt, kind="E1", chunk=54 if q else None, rule=RULES["corrupt"]),
+        Engine("messages", _spread(g3, 6), r3, kind="E1", chunk=6, rule=" ".join(f"[{k}] " + RULES[k] for k in ("header", "version", "msgser", "msgparse"))),
+        Engine("node", gen_node, run_node, kind="E2", chunk=1200 if q else None, rule=RULES["node"]),
     ]
